@@ -1603,6 +1603,7 @@ class Evaluator:
         self.link, self.R, self.cfg = link, R, cfg
         self.case = {"kind": link.kind, "cfg": cfg, "script": script_prefix}
         self.nviol = 0
+        self.unverified = 0          # operations of the batch that were not verified end to end (any reason)
         self.stale_tids = set()      # server threads already reported for re-delivering an earlier message
 
     def viol(self, sig, what, conn, opi):
@@ -2023,6 +2024,8 @@ def evaluate_batch(ev, batch, results):
         conn["_res"] = res
         proto = "snep" if conn["proto"] == "snep" else "handover"
         srv_end = other(conn["end"])
+        if "connect_exc" in res or len(res.get("ops", [])) < len(conn["ops"]):
+            ev.unverified += 1
         if "connect_exc" in res:
             if link.alive():
                 ev.viol("escape/%s/connect/%s" % (proto, res["connect_exc"][0]), "connect raised %s" % res["connect_exc"][1], conn, -1)
@@ -2039,6 +2042,8 @@ def evaluate_batch(ev, batch, results):
             if opi > 0 and conn["proto"] == "snep" and not conn.get("implicit"):
                 note_followed(R, cfg, conn, res, conn["ops"][opi - 1])
             ok = eval_op(ev, conn, res, opi, op, o, srv_end, batch_msgs, single)
+            if ok is not True:
+                ev.unverified += 1
             link.history.add(op["_msg"])
             if "_resp" in op:
                 link.history.add(op["_resp"])
@@ -2672,7 +2677,13 @@ def run_link(cfg, script, R, budget=None, factory=None):
                 del link.book.thread_exc[:]
             dead = not link.alive()
             if dead and not stuck and not ev.nviol:
-                R.inconc("link ended during batch %d: %s" % (bi, link.diag()))
+                if ev.unverified:
+                    R.inconc("link ended during batch %d: %s" % (bi, link.diag()))
+                else:
+                    # every transfer of the batch was verified end to end before the link went down: the same event as a
+                    # link lost while idle between two batches (C06 says nothing about how long a link lives)
+                    R.count("links_lost_after_every_transfer_of_the_batch_was_verified")
+                    R.seen("link_lost_diag", link.diag()[:160])
             if stuck or ev.nviol or dead:
                 if stuck:
                     link.kill()
